@@ -1,2 +1,388 @@
-def cells(fb, rep):
-    pass
+"""E4 — cross-heap transfer sites (shared by C13 and C05).
+
+E4a  every store of a value into a place another heap owns (mutable cells, channel queue, host root list of another
+     thread, the stack of another thread, the global heap) stores the *result of the deep clone into the owner's
+     heap*; who-may-write those places.
+E4b  wherever a Cloner is built for a non-global destination, the share-or-copy decision (can_share_values_with)
+     precedes the clone and its negative edge forces a full clone.
+E4c  the cloner is closed under the value representation: an arm of its own for every ValueRepr / Repr variant, and
+     every pointer-carrying arm allocates a copy (or fails)."""
+from . import flow
+from .common import enum_switches_any, variant_names
+from .facts import op_place, op_local
+
+REF = "gluon_vm::reference::Reference"
+LAZY = "gluon_vm::lazy::Lazy"
+SENDER = "gluon_vm::channel::Sender"
+RECEIVER = "gluon_vm::channel::Receiver"
+DCV = "deep_clone_value"
+CELLS = [(REF, "value", "thread"), (LAZY, "value", "thread")]
+
+
+def _is_dcv(name):
+    return name.endswith("::deep_clone_value")
+
+
+def _is_clone(name):
+    return name.endswith("::deep_clone_value") or name.endswith("Cloner::<'t>::deep_clone")
+
+
+def _dcv_calls(body):
+    return [c for c in body.calls() if any(_is_dcv(n) for n in c.names())]
+
+
+def _value_free_agg(body, rv):
+    """an enum variant aggregate that carries no VM value (Lazy_::Blackhole)"""
+    if rv[0] == "agg" and rv[1][0] == "adt":
+        for o in rv[2]:
+            p = op_place(o)
+            if p is not None:
+                row = body.local_ty(p[0])
+                if body.ty_has(row, "gluon_vm::value::Value", own=False) or body.ty_has(row, "gluon_vm::gc::GcPtr", own=False):
+                    return False
+        return True
+    return False
+
+
+def cells(fb, rep, rule="E4a"):
+    """stores into Reference.value / Lazy.value"""
+    R = rule
+    rep.rule(R, "cross-heap sinks store the result of the deep clone into the owner's heap; who-may-write")
+    n_sites = 0
+    for b in list(fb.bodies.values()) + list(fb.pre.values()):
+        if b.kind == "coroutine_post":
+            continue  # the pre-transform body of the same coroutine is analysed instead
+        for i, j, place, rv, line in b.assigns():
+            if place[1] != ["*"]:
+                continue
+            dsrc = flow.sources(b, place[0])
+            for adt, vfield, tfield in CELLS:
+                if ("field", adt, vfield) not in dsrc:
+                    continue
+                n_sites += 1
+                if rv[0] != "use":
+                    rep.violation(R, "cell-store-shape|%s|%s" % (b.id, adt), "unrecognised store into %s.%s" % (adt, vfield), "%s:%s" % (b.file, line))
+                    continue
+                vs = flow.sources(b, rv[1])
+                # the stored operand may be a local assigned an aggregate (Lazy_::Value(v) / Lazy_::Blackhole(..))
+                aggs = [s for s in vs if s[0] == "agg"]
+                if not (flow.has_call(vs, _is_dcv)):
+                    # value-free state (Blackhole) is fine
+                    p = op_place(rv[1])
+                    defs = b.defs_of(p[0]) if p is not None and not p[1] else []
+                    if defs and all(d[0] == "assign" and _value_free_agg(b, d[3]) for d in defs):
+                        rep.ok(R, "%s: stores a value-free state into %s.%s" % (b.id, adt.rsplit("::", 1)[1], vfield))
+                        continue
+                    rep.violation(R, "cell-store-unclone|%s|%s" % (b.id, adt),
+                                  "%s stores into %s.%s a value that is not the result of deep_clone_value" % (b.id, adt, vfield),
+                                  "%s:%s" % (b.file, line))
+                    continue
+                # the clone's destination (receiver) is the cell's own thread
+                good = False
+                for c in _dcv_calls(b):
+                    rs = flow.sources(b, c.args[0])
+                    if ("field", adt, tfield) in rs:
+                        good = True
+                if good:
+                    rep.ok(R, "%s: %s.%s <- deep_clone_value(receiver = cell.%s)" % (b.id, adt.rsplit("::", 1)[1], vfield, tfield))
+                else:
+                    rep.violation(R, "cell-store-wrong-heap|%s|%s" % (b.id, adt),
+                                  "%s clones into a heap that is not the cell owner's (%s.%s) before storing" % (b.id, adt, tfield),
+                                  "%s:%s" % (b.file, line))
+    rep.floor(R, "stores into Reference.value / Lazy.value", n_sites, 4)
+
+
+def queue(fb, rep):
+    R = "E4a"
+    allowed = {"push_back": "send", "pop_front": "recv", "lock": None, "clone": None, "deref": None, "deref_mut": None,
+               "unwrap": None, "new": None, "fmt": None, "trace": None, "ok_or": None}
+    pushes = []
+    for b in fb.bodies.values():
+        for c in b.calls():
+            if "VecDeque" not in c.res or not c.args:
+                continue
+            rs = flow.sources(b, c.args[0])
+            on_sender = ("field", SENDER, "queue") in rs
+            on_recv = ("field", RECEIVER, "queue") in rs
+            if not (on_sender or on_recv):
+                continue
+            meth = c.res.rsplit("::", 1)[1]
+            if meth == "push_back":
+                pushes.append((b, c))
+                if on_recv and not on_sender:
+                    rep.violation(R, "queue-push-from-receiver|%s" % b.id, "Receiver side pushes into the channel queue", c.where())
+            elif meth in ("pop_front",):
+                if on_sender and not on_recv:
+                    rep.violation(R, "queue-pop-from-sender|%s" % b.id, "Sender side pops from the channel queue", c.where())
+                else:
+                    rep.ok(R, "%s: Receiver.queue.pop_front()" % b.id)
+            elif meth in ("iter", "len", "is_empty", "fmt", "as_slices", "front", "back"):
+                pass
+            else:
+                rep.violation(R, "queue-mutator|%s|%s" % (b.id, meth), "unexpected VecDeque method on the channel queue: %s" % c.res, c.where())
+    if not pushes:
+        rep.anchor_lost(R, "push into Sender.queue")
+    for b, c in pushes:
+        vs = flow.sources(b, c.args[1])
+        args = [s[1] for s in vs if s[0] == "arg"]
+        if flow.has_call(vs, _is_dcv):
+            _check_sender_clone(rep, R, b, c)
+        elif args:
+            # forwarding function (Sender::send): check every caller's argument
+            callers = fb.calls_of(b.id)
+            if not callers:
+                rep.violation(R, "queue-push-unclone|%s" % b.id, "pushes its parameter into the queue and has no analysable caller", c.where())
+            for cc in callers:
+                ok = False
+                for an in args:
+                    if an - 1 < len(cc.args):
+                        cvs = flow.sources(cc.body, cc.args[an - 1])
+                        if flow.has_call(cvs, _is_dcv):
+                            ok = True
+                if ok:
+                    _check_sender_clone(rep, R, cc.body, cc)
+                else:
+                    rep.violation(R, "queue-push-unclone|%s" % cc.body.id,
+                                  "%s sends a value that is not the result of deep_clone_value" % cc.body.id, cc.where())
+        else:
+            rep.violation(R, "queue-push-unclone|%s" % b.id, "value pushed into the channel queue is not a deep clone", c.where())
+
+
+def _check_sender_clone(rep, R, b, c):
+    good = any(("field", SENDER, "thread") in flow.sources(b, d.args[0]) for d in _dcv_calls(b))
+    if good:
+        rep.ok(R, "%s: queue.push_back(deep_clone_value(receiver = sender.thread))" % b.id)
+    else:
+        rep.violation(R, "queue-push-wrong-heap|%s" % b.id, "value sent is cloned into a heap other than the channel owner's", c.where())
+
+
+def host_moves(fb, rep):
+    R = "E4a"
+    # re_root: the new handle's value is cloned into the *target* vm
+    b = fb.body("gluon_vm::thread::RootedValue::<T>::re_root")
+    if b is None:
+        rep.anchor_lost(R, "RootedValue::re_root")
+    else:
+        news = [c for c in b.calls() if c.res.endswith("RootedValue::<T>::new")]
+        dcv = _dcv_calls(b)
+        if news and dcv:
+            vs = flow.sources(b, news[0].args[1])
+            vm_new = flow.sources(b, news[0].args[0])
+            vm_dcv = flow.sources(b, dcv[0].args[0])
+            same_vm = ("arg", 2) in vm_new and ("arg", 2) in vm_dcv
+            if flow.has_call(vs, _is_dcv) and same_vm:
+                rep.ok(R, "re_root: RootedValue::new(vm, deep_clone_value(receiver = vm))")
+            else:
+                rep.violation(R, "re-root-unclone", "re_root roots a value in `vm` that was not cloned into `vm`", news[0].where())
+        else:
+            rep.violation(R, "re-root-shape", "re_root no longer clones and re-roots", b.where())
+    # who may create a RootedValue
+    ok_callers = {"gluon_vm::thread::RootedValue::<T>::re_root": "cloned into the target first",
+                  "<gluon_vm::thread::RootedValue<T> as core::clone::Clone>::clone": "same vm, same value",
+                  "gluon_vm::thread::VmRootInternal::root_value_with_self": "unsafe: caller promises the value is owned by self"}
+    for c in fb.calls_of("gluon_vm::thread::RootedValue::<T>::new"):
+        if c.body.id in ok_callers:
+            rep.ok(R, "%s -> RootedValue::new (%s)" % (c.body.id, ok_callers[c.body.id]))
+        else:
+            rep.violation(R, "rooted-value-new|%s" % c.body.id, "unexpected caller of the unsafe RootedValue::new", c.where())
+    # pushing a handle onto another thread's stack
+    b = fb.body("<gluon_vm::thread::RootedValue<T> as gluon_vm::api::Pushable<'vm>>::vm_push")
+    if b is None:
+        rep.anchor_lost(R, "<RootedValue as Pushable>::vm_push")
+    else:
+        pushes = [c for c in b.calls() if c.res.endswith("::push") and "stack" in c.res.lower()]
+        if not pushes:
+            pushes = [c for c in b.calls() if c.res.endswith("::push")]
+        good = any(flow.has_call(flow.sources(b, a), lambda n: n.endswith("Cloner::<'t>::deep_clone")) for c in pushes for a in c.args[1:])
+        if good:
+            rep.ok(R, "<RootedValue as Pushable>::vm_push pushes Cloner::deep_clone's result")
+        else:
+            rep.violation(R, "vm-push-unclone", "a RootedValue is pushed to a stack without passing the cloner", b.where())
+
+
+def globals_(fb, rep):
+    """promotion to the global heap: the cloner is built on GlobalVmState.gc"""
+    R = "E4a"
+    n = 0
+    for b in list(fb.bodies.values()) + list(fb.pre.values()):
+        if b.kind == "coroutine_post" or not b.id.startswith("gluon::query::"):
+            continue
+        for c in b.calls():
+            if c.res.endswith("Cloner::<'t>::new"):
+                n += 1
+                gs = flow.sources(b, c.args[1])
+                if ("field", "gluon_vm::vm::GlobalVmState", "gc") in gs:
+                    rep.ok(R, "%s: module/global value is cloned with a Cloner on GlobalVmState.gc (generation 0)" % b.id)
+                else:
+                    rep.violation(R, "global-clone-heap|%s" % b.id, "value promoted to a global is cloned into a heap other than the global one", c.where())
+    rep.floor(R, "global promotion sites (gluon::query)", n, 2)
+    # the promoted value (not the original) is what gets stored
+    gi = fb.pre.get("gluon::query::global_inner::{closure#0}")
+    if gi is None:
+        rep.anchor_lost(R, "gluon::query::global_inner")
+    else:
+        roots = [c for c in gi.calls() if c.res.endswith("::root_value")]
+        good = any(flow.has_call(flow.sources(gi, a), lambda n: n.endswith("Cloner::<'t>::deep_clone")) for c in roots for a in c.args[1:])
+        if good:
+            rep.ok(R, "global_inner roots the cloner's result as the module value")
+        else:
+            rep.violation(R, "global-inner-unclone", "global_inner stores a module value that did not pass the cloner", gi.where())
+
+
+def share_or_copy(fb, rep):
+    R = "E4b"
+    rep.rule(R, "share-or-copy decision precedes every non-global clone; its negative edge forces a full clone")
+    n = 0
+    for b in list(fb.bodies.values()) + list(fb.pre.values()):
+        if b.kind == "coroutine_post":
+            continue
+        news = [c for c in b.calls() if c.res.endswith("Cloner::<'t>::new")]
+        for nw in news:
+            gs = flow.sources(b, nw.args[1])
+            if ("field", "gluon_vm::vm::GlobalVmState", "gc") in gs:
+                continue  # generation 0 shares only generation-0 values
+            n += 1
+            dcs = [c for c in b.calls() if c.res.endswith("Cloner::<'t>::deep_clone")]
+            cs = [c for c in b.calls() if any(x.endswith("::can_share_values_with") for x in c.names())]
+            ff = [c for c in b.calls() if c.res.endswith("Cloner::<'t>::force_full_clone")]
+            if not dcs:
+                continue
+            if not cs or not ff:
+                rep.violation(R, "no-share-decision|%s" % b.id, "%s clones into a non-global heap without can_share_values_with/force_full_clone" % b.id, nw.where())
+                continue
+            ok = False
+            why = "no switch on the share decision"
+            for bb, srcs, true_t, false_t in flow.bool_switches(b):
+                if not flow.has_call(srcs, lambda x: x.endswith("::can_share_values_with")):
+                    continue
+                negated = ("op", "Not") in srcs
+                cannot_edge = true_t if negated else false_t
+                can_edge = false_t if negated else true_t
+                f_ok = all(flow.only_via_edge(b, f.bb, (bb, cannot_edge)) for f in ff)
+                reach_cannot = b.reachable(cannot_edge)
+                f_reached = any(f.bb in reach_cannot for f in ff)
+                d_ok = all(b.dominates(cs[0].bb, d.bb) and b.dominates(bb, d.bb) for d in dcs) and all(d.bb in b.reachable(can_edge) and d.bb in reach_cannot for d in dcs)
+                # on the cannot-share edge the clone must not be reachable without forcing
+                bypass = any(d.bb in b.reachable(cannot_edge, avoid_blocks=[f.bb for f in ff]) for d in dcs)
+                if f_ok and f_reached and d_ok and not bypass:
+                    ok = True
+                else:
+                    why = "force_only_on_cannot_share=%s reached=%s clone_after_decision=%s bypass=%s" % (f_ok, f_reached, d_ok, bypass)
+            if ok:
+                rep.ok(R, "%s: can_share_values_with dominates deep_clone; the cannot-share edge always passes force_full_clone" % b.id)
+            else:
+                rep.violation(R, "share-decision-shape|%s" % b.id, "share-or-copy decision does not guard the clone (%s)" % why, nw.where())
+    rep.floor(R, "non-global Cloner constructions", n, 2)
+    # the decision itself: identity short-cut, different global state => false, otherwise ancestor walk
+    cs = fb.body("<gluon_vm::thread::Thread as gluon_vm::thread::ThreadInternal>::can_share_values_with")
+    if cs is None:
+        rep.anchor_lost(R, "Thread::can_share_values_with")
+        return
+    T = "gluon_vm::thread::Thread"
+    reads_parent = any(("field", T, "parent") in flow.sources(cs, rv[1] if rv[0] in ("disc", "rawptr") else (rv[2] if rv[0] == "ref" else [0, []]))
+                       for i, j, pl, rv, ln in cs.assigns() if rv[0] in ("disc", "ref", "rawptr"))
+    reads_gs = any(("field", T, "global_state") in flow.sources(cs, c.args[0]) for c in cs.calls() if c.args)
+    loops = cs.sccs()
+    consts = set()
+    for i, j, pl, rv, ln in cs.assigns():
+        if pl == [0, []] and rv[0] == "use" and rv[1][0] == "k" and "int" in rv[1][1]:
+            consts.add(rv[1][1]["int"])
+    if reads_parent and reads_gs and loops and consts == {0, 1}:
+        rep.ok(R, "can_share_values_with: compares global states, walks Thread.parent, returns both true and false")
+    else:
+        rep.violation(R, "share-decision-degenerate", "can_share_values_with lost the global-state comparison / parent walk / one of its results (parent=%s gs=%s loop=%s results=%s)" % (
+            reads_parent, reads_gs, bool(loops), sorted(consts)), cs.where())
+    # Generation::can_contain_values_from is `other <= self`
+    g = fb.body("gluon_vm::gc::Generation::can_contain_values_from")
+    if g is None:
+        rep.anchor_lost(R, "Generation::can_contain_values_from")
+    else:
+        ok = False
+        for i, j, pl, rv, ln in g.assigns():
+            if rv[0] == "bin" and rv[1] in ("Le", "Ge", "Lt", "Gt"):
+                a = op_local(rv[2])
+                c = op_local(rv[3])
+                sa = flow.sources(g, rv[2])
+                sc = flow.sources(g, rv[3])
+                # other.0 <= self.0  (self = arg1, other = arg2)
+                pure = not any(s[0] in ("op", "const", "call") for s in sa | sc)
+                if rv[1] == "Le" and ("arg", 2) in sa and ("arg", 1) in sc and pure:
+                    ok = True
+                if rv[1] == "Ge" and ("arg", 1) in sa and ("arg", 2) in sc and pure:
+                    ok = True
+        if ok:
+            rep.ok(R, "Generation::can_contain_values_from(self, other) is other <= self")
+        else:
+            rep.violation(R, "generation-order", "Generation::can_contain_values_from is no longer `other.0 <= self.0`", g.where())
+    # force_full_clone sets the disjoint generation
+    f = fb.body("gluon_vm::value::Cloner::<'t>::force_full_clone")
+    if f is not None:
+        w = [1 for bb, j, rv, ln, kind in flow.field_writes(f, "gluon_vm::value::Cloner", "receiver_generation")]
+        d = [c for c in f.calls() if c.res.endswith("Generation::disjoint")]
+        if w and d:
+            rep.ok(R, "force_full_clone sets receiver_generation = Generation::disjoint()")
+        else:
+            rep.violation(R, "force-full-clone", "force_full_clone no longer sets the disjoint generation", f.where())
+
+
+def cloner_closed(fb, rep):
+    R = "E4c"
+    rep.rule(R, "the cloner has an arm for every value representation; pointer-carrying arms allocate a copy or fail")
+    for fid, adt in (("gluon_vm::value::Cloner::<'t>::deep_clone_inner", "gluon_vm::value::ValueRepr"),
+                     ("gluon_vm::value::Cloner::<'t>::deep_clone_array", "gluon_vm::value::Repr")):
+        b = fb.body(fid)
+        if b is None:
+            rep.anchor_lost(R, fid)
+            continue
+        names = variant_names(fb, adt)
+        a = fb.adts.get(adt)
+        best = None
+        for bb, place, m, other in enum_switches_any(b):
+            if len(m) >= max(3, len(names) - 2) and (best is None or len(m) > len(best[2])):
+                best = (bb, place, m, other)
+        if best is None:
+            rep.anchor_lost(R, "match on %s in %s" % (adt, fid))
+            continue
+        bb, place, m, other = best
+        targets = dict(m)
+        other_is_unreachable = b.term(other)[0] == "unreachable"
+        for idx, vn in enumerate(names):
+            t = targets.get(idx)
+            if t is None and other_is_unreachable:
+                rep.violation(R, "cloner-arm-missing|%s|%s" % (adt, vn), "%s has no arm for %s::%s" % (fid, adt, vn), b.where())
+                continue
+            if t is None:
+                rep.violation(R, "cloner-wildcard|%s|%s" % (adt, vn), "%s handles %s::%s through a wildcard arm" % (fid, adt, vn), b.where())
+                continue
+            # does this variant carry a pointer?
+            carries = False
+            if a is not None and adt.endswith("ValueRepr"):
+                crate = a["_crate"]
+                for f in a["variants"][idx]["fields"]:
+                    row = crate.types[f["ty"]]
+                    mk = crate.markers
+                    if mk.index("gluon_vm::gc::GcPtr") in row.get("mo", []):
+                        carries = True
+            elif adt.endswith("Repr"):
+                carries = vn in ("Array", "Unknown", "Userdata", "Thread")
+            if not carries:
+                rep.ok(R, "%s: %s::%s (no heap pointer) has its own arm" % (fid.rsplit("::", 1)[1], adt.rsplit("::", 1)[1], vn))
+                continue
+            others = [x for i2, x in targets.items() if i2 != idx and x != t]
+            excl = b.reachable(t, avoid_blocks=[bb]) - b.reachable(others, avoid_blocks=[bb])
+            callees = {c.res for c in b.calls() if c.bb in excl}
+            closures = set()
+            for i, j, pl, rv, ln in b.assigns():
+                if i in excl and rv[0] == "agg" and rv[1][0] == "closure":
+                    closures.add(rv[1][1])
+            for cid in closures:
+                cb = fb.body(cid)
+                if cb is not None:
+                    callees |= {c.res for c in cb.calls()}
+            copies = any("deep_clone" in n or n.endswith("Gc::alloc") for n in callees)
+            errs = any(i in excl for i in flow.blocks_constructing(b, "core::result::Result", "Err"))
+            if copies or errs:
+                rep.ok(R, "%s: %s::%s arm copies (%s)" % (fid.rsplit("::", 1)[1], adt.rsplit("::", 1)[1], vn, "alloc/deep_clone" if copies else "Err"))
+            else:
+                rep.violation(R, "cloner-arm-shares|%s|%s" % (adt, vn),
+                              "%s: the arm for pointer-carrying %s::%s neither allocates a copy nor fails" % (fid, adt, vn), b.where())
